@@ -242,6 +242,7 @@ type engineCampaign struct {
 	nontriv  func(ps *PlanSpec, ix *index, res *runResult) bool
 	settle   time.Duration
 	corpus   []*PlanSpec
+	crashes  int
 }
 
 func (c *engineCampaign) run(r *Result) {
@@ -288,6 +289,11 @@ func (c *engineCampaign) run(r *Result) {
 			}
 		}
 	})
+	if c.crashes > 0 {
+		// the property must also hold across a restart: a small crash-replay campaign (every write prefix)
+		crashCampaign(c.prop, r, c.crashes, c.crashes*20, false)
+		r.Notes = append(r.Notes, "includes a crash-replay sub-campaign (harness/crash_test.go) for the property's clauses across a restart")
+	}
 	filterFindings(r, c.prop)
 	r.Validated = r.Evaluations
 }
@@ -357,7 +363,7 @@ func init() {
 			}
 			return false
 		}}).run
-	campaigns["C03"] = (&engineCampaign{prop: "C03",
+	campaigns["C03"] = (&engineCampaign{prop: "C03", crashes: 12,
 		rule:  "random plans with 35% failing sequence actions, 1-5 sequences, tolerance -1..2, Concurrency 0-3, random latencies (completion orders); monitors: failure bound tol+conc, nothing started after the threshold beyond conc-1, block/plan outcomes; exact comparison with Model/Engine on schedule-independent configurations; non-trivial = >=1 failing sequence; distinct by spec",
 		quick: 400, thorough: 15000,
 		gen: func(i int, g *engineGen) {
@@ -380,7 +386,7 @@ func init() {
 		nontriv: func(ps *PlanSpec, ix *index, res *runResult) bool {
 			return countFailingSeqs(ps) > 0 || ps.Cont != nil || res.Final == nil || res.Final.Status == "failed"
 		}}).run
-	campaigns["C06"] = (&engineCampaign{prop: "C06",
+	campaigns["C06"] = (&engineCampaign{prop: "C06", crashes: 12,
 		rule:  "random plans with bypass groups (p=0.5 at plan and block level, 60% of bypass actions failing) and pre/cont groups with 30% failing check actions; monitors: a passed bypass skips its whole scope and completes it, a failed pre / initial cont run blocks every sequence action and fails the scope; exact comparison with Model/Engine; non-trivial = a bypass or pre group with a decided verdict; distinct by spec",
 		quick: 400, thorough: 15000,
 		gen: func(i int, g *engineGen) {
